@@ -79,13 +79,14 @@ func init() {
 		partial := fs.String("partial", "", "internal")
 		status := fs.String("status", "", "internal")
 		skip := fs.String("skip", "", "internal")
+		bad := fs.String("bad", "", "internal")
 		_ = fs.Parse(args)
 		if *isChild {
 			var sk []string
 			if *skip != "" {
 				sk = strings.Split(*skip, ",")
 			}
-			return cborx.RunChild(*job, *shard, *of, *from, sk, *partial, *status)
+			return cborx.RunChild(*job, *shard, *of, *from, sk, *partial, *status, *bad)
 		}
 		if *tier == "" {
 			*tier = "quick"
